@@ -15,14 +15,15 @@ import (
 // C13 — top-level mutation fields execute serially in document order.
 
 type C13Scn struct {
-	Query    string            `json:"query"`
-	Keys     []string          `json:"keys"`         // top-level response keys in document order (known by construction)
-	Op       string            `json:"op,omitempty"` // operation name to select (multi-operation documents)
-	Faults   map[string]string `json:"faults,omitempty"`
-	AllThunk bool              `json:"all_thunk,omitempty"`
-	Entry    string            `json:"entry"`
-	Order    uint32            `json:"order"`
-	Salt     uint64            `json:"salt"`
+	Query    string                 `json:"query"`
+	Keys     []string               `json:"keys"`         // top-level response keys in document order (known by construction)
+	Op       string                 `json:"op,omitempty"` // operation name to select (multi-operation documents)
+	Vars     map[string]interface{} `json:"vars,omitempty"`
+	Faults   map[string]string      `json:"faults,omitempty"`
+	AllThunk bool                   `json:"all_thunk,omitempty"`
+	Entry    string                 `json:"entry"`
+	Order    uint32                 `json:"order"`
+	Salt     uint64                 `json:"salt"`
 }
 
 type c13 struct{}
@@ -85,29 +86,66 @@ func genMutation(r *RNG) (string, []string) {
 			body = append(body, fmt.Sprintf("...F%d", i))
 			frags = append(frags, fmt.Sprintf("fragment F%d on Mutation { %s }", i, f))
 		case "dup":
-			body = append(body, f)
 			// the same response key again, later in the document: merged into
-			// the first occurrence, so it does not change the order
-			later = append(later, f)
+			// the first occurrence, so it does not change the order - also when
+			// one of the occurrences carries a variable-driven directive that
+			// includes it
+			f1, f2 := f, f
+			switch r.Intn(4) {
+			case 1:
+				f1 = t.key + ": " + t.field + " @include(if:$yes)" + t.sel
+			case 2:
+				f2 = t.key + ": " + t.field + " @skip(if:$no)" + t.sel
+			case 3:
+				f2 = "... @include(if:$yes) { " + f + " }"
+			}
+			body = append(body, f1)
+			later = append(later, f2)
 		default:
 			body = append(body, f)
 		}
 	}
 	body = append(body, later...)
-	return "mutation { " + strings.Join(body, " ") + " } " + strings.Join(frags, " "), keys
+	all := strings.Join(body, " ")
+	var decl []string
+	if strings.Contains(all, "$yes") {
+		decl = append(decl, "$yes:Boolean=true")
+	}
+	if strings.Contains(all, "$no") {
+		decl = append(decl, "$no:Boolean=false")
+	}
+	head := "mutation"
+	if len(decl) > 0 {
+		head += "(" + strings.Join(decl, ",") + ")"
+	}
+	return head + " { " + all + " } " + strings.Join(frags, " "), keys
 }
 
-var c13Faults = []string{FThunk, FThunk, FThunk, FThunkErr, FThunkNil, FThunkPanic, FErr, FNil}
+var c13Faults = []string{FThunk, FThunk, FThunk, FThunkErr, FThunkNil, FThunkPanic, FErr, FNil, FElemThunk, FElemThunk}
 
 func (p c13) Gen(seed uint64, enum int, tier string) json.RawMessage {
 	r := NewRNG(seed)
 	s := C13Scn{}
 	s.Query, s.Keys = genMutation(r)
+	if r.Chance(50) {
+		// supplied explicitly (otherwise the defaults apply); only declared ones
+		s.Vars = map[string]interface{}{}
+		if strings.Contains(s.Query, "$yes:") {
+			s.Vars["yes"] = true
+		}
+		if strings.Contains(s.Query, "$no:") {
+			s.Vars["no"] = false
+		}
+	}
 	if r.Chance(35) {
 		// a multi-operation document: the mutation is selected by name, other
 		// operations (of other kinds) stand before and/or after it
 		s.Op = "M"
-		s.Query = strings.Replace(s.Query, "mutation {", "mutation M {", 1)
+		if strings.HasPrefix(s.Query, "mutation(") {
+			s.Query = strings.Replace(s.Query, "mutation(", "mutation M(", 1)
+		} else {
+			s.Query = strings.Replace(s.Query, "mutation {", "mutation M {", 1)
+		}
 		others := []string{"query Q1 { x1 }", "subscription S1 { events { id } }", "query Q2 { a { id } }", "mutation M2 { s1(v:9) }"}
 		i, j := r.Intn(len(others)), r.Intn(len(others))
 		if r.Chance(50) {
@@ -125,7 +163,7 @@ func (p c13) Gen(seed uint64, enum int, tier string) json.RawMessage {
 	// the fault-free run tells which response paths exist
 	w := NewWorld("A")
 	rc := &ReqCtx{Task: "dry", W: w, RootTok: Tok{T: "Mutation"}}
-	graphql.Do(graphql.Params{Schema: w.Schema, RequestString: s.Query, OperationName: s.Op, Context: WithReq(context.Background(), rc)})
+	graphql.Do(graphql.Params{Schema: w.Schema, RequestString: s.Query, OperationName: s.Op, VariableValues: s.Vars, Context: WithReq(context.Background(), rc)})
 	paths := SortedKeys(rc.Seen)
 	switch r.Intn(5) {
 	case 0:
@@ -197,7 +235,7 @@ func (c13) Run(t TestingT, scn json.RawMessage, tape *Tape) *Outcome {
 		if pr.Plan == nil {
 			return &Outcome{Infra: "generated mutation is rejected by the plan cache: " + MarshalResult(&graphql.Result{Errors: pr.Errors}) + " query: " + sc.Query}
 		}
-		res = graphql.ExecutePlan(pr.Plan, graphql.ExecuteParams{Schema: w.Schema, Args: pr.SynthArgs, Context: ctx})
+		res = graphql.ExecutePlan(pr.Plan, graphql.ExecuteParams{Schema: w.Schema, Args: mergeArgs(sc.Vars, pr.SynthArgs), Context: ctx})
 	} else if sc.Entry == "plan" {
 		doc, err := parseDoc(sc.Query)
 		if err != nil {
@@ -207,9 +245,9 @@ func (c13) Run(t TestingT, scn json.RawMessage, tape *Tape) *Outcome {
 		if err != nil {
 			return &Outcome{Infra: "generated mutation does not plan: " + err.Error()}
 		}
-		res = graphql.ExecutePlan(plan, graphql.ExecuteParams{Schema: w.Schema, Context: ctx})
+		res = graphql.ExecutePlan(plan, graphql.ExecuteParams{Schema: w.Schema, Args: sc.Vars, Context: ctx})
 	} else {
-		res = graphql.Do(graphql.Params{Schema: w.Schema, RequestString: sc.Query, OperationName: sc.Op, Context: ctx})
+		res = graphql.Do(graphql.Params{Schema: w.Schema, RequestString: sc.Query, OperationName: sc.Op, VariableValues: sc.Vars, Context: ctx})
 	}
 	log, fired, _, _ := rc.Snapshot()
 	for k, v := range fired {
